@@ -512,6 +512,8 @@ def normalise(text):
     if '"' in rest and rest.count('"') % 2 and '\\' not in rest:
         return text
     outs = []
+    if op.upper() == 'OUT' and re.match(r'\s*\(\s*C\s*\)\s*,', rest, re.I):
+        return text         # OUT (C),r / OUT (C),0 have no numeric operand: the 0 is part of the mnemonic, `OUT (C),$00` is no instruction
     for o in split_operands(rest):
         t = o.strip()
         m = re.fullmatch(r'\((I[XY])\s*([+-])(.*)\)', t, re.I)
@@ -768,6 +770,52 @@ FIXED = ('BIT 7,A', 'RES 0,(HL)', 'SET 3,B', 'IM 0', 'IM 1', 'IM 2', 'RST 0', 'R
          'DEFM "\\\\\\\\","Q"', 'DEFW "\\\\","k"')
 
 
+# Operands that are not plain numbers but look like numbers, or that base / case conversion treats specially. Together
+# with FIXED this is the catalogue: every entry is dealt out to a file of each run (see g2_program's `must`), so that it meets
+# all 18 option vectors whatever the seed.
+SPECIAL = ('OUT (C),0', 'out (c),0', 'OUT (C), 0', 'OUT (C),A', 'IN F,(C)', 'in f,(c)', 'IN A,(C)', 'OUT (0),A', 'IN A,(0)',
+           'LD A,0', 'LD (HL),0', 'LD C,0', 'RST 0', 'RST 8', 'RST 16', 'RST 24', 'RST 32', 'RST 40', 'RST 48', 'RST 56',
+           'RST $00', 'RST $08', 'RST $10', 'RST $18', 'RST $20', 'RST $28', 'RST $30', 'RST $38', 'rst 40', 'rst $28',
+           'RST %110000', 'IM 0', 'IM 1', 'IM 2', 'im 0', 'im 1', 'im 2',
+           'BIT 0,B', 'BIT 1,C', 'BIT 2,D', 'BIT 3,E', 'BIT 4,H', 'BIT 5,L', 'BIT 6,(HL)', 'BIT 7,A', 'bit 3,a',
+           'SET 0,A', 'SET 1,(HL)', 'SET 2,L', 'SET 3,H', 'SET 4,E', 'SET 5,D', 'SET 6,C', 'SET 7,B', 'set 6,(hl)',
+           'RES 0,C', 'RES 1,B', 'RES 2,A', 'RES 3,(HL)', 'RES 4,L', 'RES 5,H', 'RES 6,E', 'RES 7,D', 'res 1,e',
+           'BIT 0,(IX+0)', 'BIT 1,(IX-1)', 'BIT 7,(IY+0)', 'SET 2,(IY-128)', 'RES 7,(IX+127)', 'bit 6,(iy+$10)',
+           'SET 1,(IX+2),B', 'RES 0,(IY-3),A', 'SET 7,(IY+0),L', 'RES 6,(IX-$7F),H', 'set 3,(ix+%101),c', 'SET 0,(IX+0),D',
+           'RLC (IX+1),D', 'RR (IY-1),E', 'SLA (IX+0),H', 'SRL (IY+127),A', 'RL (IX-2),B', 'SRA (IY+$05),C', 'rrc (ix-7),l',
+           'SLL B', 'SLL (HL)', 'SLL A', 'sll l', 'SLL (IX+0)', 'SLL (IY-2)', 'sll (iy-2),d', 'SLL (IX+$0F),E',
+           "EX AF,AF'", "ex af,af'", "EX AF, AF'", 'EX (SP),HL', 'EX (SP),IX', 'JP (HL)', 'JP (IX)', 'JP (IY)', 'jp (hl)', 'jp (iy)',
+           'LD A,(IX-1)', 'LD (IY-128),0', 'LD (IX+0),0', 'ADD A,(IY-5)', 'INC (IX-$10)', 'DEC (IY+%11)', 'LD (IX-1),-1',
+           'LD H,(IX+$7F)', 'ld (iy-$0a),$0b', 'SUB (IX-0)', 'LD (IY+0),"0"', 'CP (IX-"a")', 'LD L,(IY+1+1)', 'LD (IX+2*3),2*2',
+           'DEFB 0,"0",$0,%0', 'DEFM "OUT (C),0",0', 'DEFW 0,$0,%0,"0"', 'DEFS 2,0', 'DEFB 1,"a",$2,%11,"b"+1', 'DEFW 1,"a",$2,%11',
+           'DEFM "ab",1,$2,%11,"c"', 'DEFS 1+1,"a"', 'DEFS $3,%1', 'DEFB 2*3+1,"a"-1,$10-%1', 'DEFW $100*2+"a"', 'LD A,2*3+1',
+           'LD HL,$100+%11-1', 'defb 1,"A",$fF,%10,"b"', 'defw $AbCd,"Q",%1', 'defm "Ab",$cD', 'defs 2,"Z"', 'DEFB "IM 1",1',
+           'DEFM "RST 8","BIT 7,A"', 'DEFB "$FF","%1"', 'DEFW 256*"A"+"b"', 'DEFB 255,$FF,%11111111,"~"', 'DEFM 72,"i",$21',
+           'DEFS %100,$AA', 'DEFS 10-7,5*5', 'LD BC,"a"+$100', 'LD DE,%1+2*$3', 'AND "a"-%1', 'XOR 2*"!"', 'LD (IX+$1),"a"+%1')
+CATALOGUE = tuple(dict.fromkeys(FIXED + SPECIAL))
+
+
+def deal(j, nfiles):
+    """the catalogue entries that file j of nfiles must contain: every entry is in some file, every file has at least one"""
+    n = len(CATALOGUE)
+    idx = list(range(j, n, nfiles)) or [j % n]
+    return [CATALOGUE[i] for i in idx]
+
+
+def respell(rnd, text):
+    """the statement in another case / spacing (string and character constants untouched); every fourth stays as it is"""
+    k = rnd.randrange(8)
+    if k == 0:
+        text = lower_outside_quotes(text)
+    elif k == 1:
+        parts = re.split(r'("(?:\\.|[^"\\])*")', text)
+        text = ''.join(p if p.startswith('"') else p.upper() for p in parts)
+    elif k == 2:
+        op, sep, rest = text.partition(' ')
+        text = op + sep + ' ' + rest if sep else text
+    return text
+
+
 def spell(rnd, v):
     k = rnd.randrange(8)
     pad = '0' * rnd.randrange(3)
@@ -887,10 +935,25 @@ def number_in(text):
     return m.group(1) if m else None
 
 
-def g2_program(rnd, assembler, base):
+def g2_program(rnd, assembler, base, must=()):
+    """`must`: statements (free of instruction addresses) that the file contains as instruction lines of their own, without a
+    replacement by directive or block, whatever else is drawn"""
     g = G2(rnd, assembler)
     nent = rnd.randrange(1, 4)
     sizes = [[rnd.choice((1, 1, 2, 2, 3, 3, 4)) for _ in range(rnd.randrange(2, 7))] for _ in range(nent)]
+    forced = {}
+    for text in must:
+        data = assemble_indep(assembler, text, base)
+        if not data or any(not 0 <= b < 256 for b in data):
+            raise MachineryError('catalogue statement does not assemble: %r' % text)
+        free = [(ei, ii) for ei, e in enumerate(sizes) for ii in range(len(e)) if (ei, ii) not in forced]
+        if not free:
+            sizes[-1].append(1)
+            free = [(len(sizes) - 1, len(sizes[-1]) - 1)]
+        ei, ii = rnd.choice(free)
+        sizes[ei][ii] = len(data)
+        forced[(ei, ii)] = {'k': 'raw', 'a': 0, 'n': len(data), 't': -1, 'bs': [int(b) for b in data], 'refs': [],
+                            'text': respell(rnd, text), 'cat': text}
     addrs, a = [], base
     for e in sizes:
         for s in e:
@@ -906,7 +969,8 @@ def g2_program(rnd, assembler, base):
         for ii, s in enumerate(e):
             at = addrs[k]
             k += 1
-            tok = g.token(at, addrs, s)
+            must_tok = forced.get((ei, ii))
+            tok = must_tok or g.token(at, addrs, s)
             if rnd.random() < 0.35:
                 prog.append({'l': 'lab', 'name': rnd.choice(('LB%d', 'Loop%d', 'data_%d', 'x%d')) % nlab})
                 nlab += 1
@@ -914,13 +978,13 @@ def g2_program(rnd, assembler, base):
                 prog.append({'l': 'keep', 'vals': [rnd.choice(addrs)] if rnd.random() < 0.4 else []})
             if rnd.random() < 0.1:
                 prog.append({'l': 'nowarn'})
-            if rnd.random() < 0.12:
+            if rnd.random() < 0.12 and not must_tok:
                 kind = rnd.choice(('isub', 'ssub', 'rsub', 'ofix', 'bfix', 'rfix'))
                 prog.append(S(kind, g.token(at, addrs, s), fin=rnd.randrange(2), lab='SUB%d' % nlab if rnd.random() < 0.3 else ''))
                 nlab += 1
             ctl = rnd.choice(CTLS) if ii == 0 else rnd.choice('  *')
             line = I(ctl, at, tok)
-            if ii and rnd.random() < 0.1:
+            if ii and rnd.random() < 0.1 and not must_tok:
                 kind = rnd.choice(('isub', 'ssub', 'rsub', 'ofix', 'bfix', 'rfix'))
                 prog += [{'l': 'blk', 'kind': kind, 'plus': 0, 'part': 'begin'}, line,
                          {'l': 'blk', 'kind': kind, 'plus': 1, 'part': 'else'}, I(' ', at, g.token(at, addrs, s)),
@@ -953,7 +1017,8 @@ def operand_values(text):
 
 
 def g2_worker(args):
-    n, first, sd, wd, vectors = args
+    n, first, sd, wd, vectors = args[:5]
+    musts = args[5] if len(args) > 5 else [()] * n
     cbuild.repo_only()
     from skoolkit.z80 import Assembler
     assembler = Assembler()
@@ -963,7 +1028,7 @@ def g2_worker(args):
     for i in range(n):
         rnd = random.Random(sd * 7000003 + first + i)
         base = rnd.choice(G2_BASES)
-        prog = g2_program(rnd, assembler, base)
+        prog = g2_program(rnd, assembler, base, musts[i])
         modes = [(1, 0)] + rnd.sample([m for m in BIN_MODES if m[0] >= 1 and m != (1, 0)], 2) + [(0, 0)]
         cases += observe(prog, 'g2.%d' % (first + i), 'g2', d, i, None, modes, vectors, base=base)
     shutil.rmtree(d, ignore_errors=True)
